@@ -109,7 +109,15 @@ def run(ctx: core.Ctx):
         else:
             lines = gen_lines(rng, T)
             tail = rng.choice(["", "", "@MAIN:VOL=", "@MAIN:VOL=-3\r", "incompl", "é"]).replace("\r\n", "")
-            data = b"".join(l.encode("utf-8") + b"\r\n" for l in lines) + tail.encode("utf-8")
+            raw_lines = [l.encode("utf-8") for l in lines]
+            if rng.random() < 0.25:
+                # line noise: a complete line that is not valid UTF-8 somewhere in the stream — the lines after it (non-ASCII ones too) are
+                # lines like any other
+                for _ in range(rng.randint(1, 2)):
+                    raw_lines.insert(rng.randrange(0, len(raw_lines) + 1), rng.choice([b"@MAIN:ZONENAME=\xff\xfe", b"\xc3", b"@SYS:INPNAMEUSB=\xe9t\xe9", b"@MAIN:VOL=\x80-3", b"\xf0\x9d\x84"]))
+                raw_lines.append("@MAIN:ZONENAME=Café ÄÖ 𝄞".encode("utf-8"))
+                ctx.count("stream:with-invalid-utf8-line")
+            data = b"".join(l + b"\r\n" for l in raw_lines) + tail.encode("utf-8")
         chunks = partition(rng, data)
         assert b"".join(chunks) == data
         got = []
